@@ -98,7 +98,6 @@ func devSection(r *core.Run) {
 		for _, v := range r.Violations() {
 			fmt.Printf("VIOL %s: %.300s\n", v.Signature, v.What)
 		}
-		fmt.Printf("counters: ref %d fq %d classify %d total %d ms\n", r.Counter("ms_reference"), r.Counter("ms_fq_batches"), r.Counter("ms_classification_and_confirmation"), r.Counter("ms_total_in_compare"))
 		return
 	}
 	if os.Getenv("C07_DEV_SAMPLE") != "" {
